@@ -139,4 +139,12 @@ CHECKS = {
          "invalid device definitions) is instantiated on each device, at defect magnitudes 1, 1e-3 and 1e-6 where a magnitude exists, with and without an explicit (nested) output path and for each seed of the current validator's random times; "
          "an exception must be raised and the recursive snapshot of the sandbox and of the private temp directory must be unchanged with no HDF5 handle open. Repaired inputs (controls, incl. rounding-level imbalance 0.1+0.2-0.3) must be accepted."),
    note="numpy.random.default_rng() is seeded by the harness inside the worker; imbalances confined to windows narrower than T/20 are outside the classes; options not constrained by validate() (save_every=0, dt_init<0) are informational only"),
+ "C09": dict(
+   engine="mc-core", category="model_checking", design_ref="DESIGN.md 3/C09, 2.2 (E5)",
+   technique="stateless exploration of all thread interleavings (preemption-bounded, CHESS style) of every prange kernel body on its Python source under a controlled scheduler, with a pairwise independence (conflict-freedom) check of loop iterations; plus an exhaustive process / thread-count sweep of whole runs compared by digest",
+   text=("Kernel level: for each of the 8 numba prange kernels the function numba compiled (.py_func) is re-created with substituted globals (prange -> per-virtual-thread iteration slice, np.empty/zeros -> one shared sentinel-filled buffer, array arguments -> proxies whose element accesses are scheduling points) "
+         "and every schedule of 2-3 virtual threads with at most 1-2 preemptions is executed: each must give bitwise the sequential result, write every element of np.empty buffers, never write an input, and the logged access sets of different iterations must be conflict-free (which makes all interleavings, "
+         "beyond the bound too, equivalent); no scalar may be carried across parallel iterations. The compiled kernels are run at every thread count (4 sizes) and must be bitwise thread-count independent and equal to the source up to rounding. "
+         "Run level: 6 configurations x fresh processes (PYTHONHASHSEED x output location) x thread counts {1,2,5,16 | 1..16}: sha256 over mesh arrays, every dataset, step/time/dt attributes and per-step records must coincide."),
+   note="native numba threads cannot be put under a scheduler: the binding of the explored source to the machine code is that it is the very function object numba compiled, plus the compiled-vs-source and thread-count comparisons; hardware vectorisation is constant on one machine"),
 }
